@@ -27,6 +27,9 @@ WellFormed(r) ==
   /\ r.opt = "ok"                                            \* no optimizer-internal error on a valid query
   /\ SameSchema(r.before, r.after)                           \* output names and types kept
   /\ (r.base = "rows" => r.exec = "rows")                    \* every reference still resolves: it lowers and runs
+  /\ (r.ub = 0 => r.ua = 0)                                  \* ... and every qualified join-key column is a column of the
+                                                             \* join input it is evaluated on (ub / ua: number of join keys of
+                                                             \* the bound / rewritten plan for which that fails)
 
 \* a statement the binder itself rejects is not a "bound plan": nothing to check
 Applicable(r) == r.bound = 1
